@@ -6,7 +6,7 @@ from gen_http import Request, Header, Chunk
 
 HARNESS = "rx_driver"
 LEAN_MODULES = ["ViaProofs.C01"]
-LEMMA_MODULES = ['ViaProofs.Frag.Lines', 'ViaProofs.Frag.Headers', 'ViaProofs.Frag.Compose', 'ViaProofs.C05', 'ViaProofs.Trans.RL', 'ViaProofs.Trans.FL', 'ViaProofs.Trans.CH', 'ViaProofs.Trans.MH', 'ViaProofs.Trans.CK', 'ViaProofs.Trans.RQ', 'ViaProofs.Trans.RR']
+LEMMA_MODULES = ['ViaProofs.Frag.Lines', 'ViaProofs.Frag.Headers', 'ViaProofs.Frag.Compose', 'ViaProofs.C05', 'ViaProofs.Trans.RL', 'ViaProofs.Trans.FL', 'ViaProofs.Trans.CH', 'ViaProofs.Trans.MH', 'ViaProofs.Trans.CK', 'ViaProofs.Trans.RQ', 'ViaProofs.Trans.RR', 'ViaProofs.Trans.MHA', 'ViaProofs.Trans.RQP']
 REQUIRED_THEOREMS = ['Via.C01_frag', 'Via.RR.receive_head_seq', 'Via.RR.receive_head_fail_seq', 'Via.RR.receive_body_seq', "Via.RR.feedHead_flatten'"]
 LEVEL = "proof"
 LEVEL_TEXT = ("PROOF (Lean 4) that the model of the server's read loop delivers the same requests for every partition of a byte string into reads (C01_frag, fragmentation laws for every parser) and parses well-formed requests correctly in one read; the model's parse_char / parse / message_headers::parse / rx_chunk::parse are PROVED equal to a translation of the current C++ regenerated on every run, the receive() decision logic is tied by differential correspondence (real request_receiver vs model) on generated requests x partitions with a by-construction oracle. Right level: the property quantifies over all messages x all partitions, which only induction reaches; the tie to the code is exact for the translated functions and sampled for receive().")
